@@ -286,7 +286,7 @@ class CodedInputStream:
         remaining = self._last_read_count - self._offset
         if remaining > 0:
             remaining_view = memoryview(self._buffer)[
-                self._offset : self._offset + remaining + 1
+                self._offset : self._offset + remaining
             ]
             self._buffer[:remaining] = remaining_view
 
